@@ -16,13 +16,15 @@ structure EntryWF (e : Entry) : Prop where
 
 /-- the invariant of the store: config entries are unique per name (memdb primary key) and
     well-formed; legacy rows are unique per id and per (source, destination) (memdb unique indexes),
-    local, and carry the computed precedence -/
+    local, named (`Intention.Validate`: SourceName / DestinationName must be set — rows with an empty
+    name are not covered by memdb's unique index) and carry the computed precedence -/
 structure StoreWF (st : Store) : Prop where
   names : st.entries.Pairwise fun a b => a.name ≠ b.name
   entries : ∀ e ∈ st.entries, EntryWF e
   rowIds : st.rows.Pairwise fun a b => a.1 ≠ b.1
   rowKeys : st.rows.Pairwise fun a b => ¬ (a.2.src = b.2.src ∧ a.2.dst = b.2.dst)
   rowLocal : ∀ r ∈ st.rows, r.2.peer = [] ∧ r.2.prec = precOf r.2.src r.2.dst
+  rowNamed : ∀ r ∈ st.rows, r.2.src ≠ [] ∧ r.2.dst ≠ []
 
 theorem getEntry_eq_some {es : List Entry} (h : es.Pairwise fun a b => a.name ≠ b.name) {m : Name} {e : Entry} :
     getEntry es m = some e ↔ e ∈ es ∧ e.name = m := by
@@ -93,7 +95,7 @@ theorem mem_sourceRaw {es : List Entry} {n : Name} {i : Ixn} :
     unfold matchNames
     split <;> simp <;> grind
 
-theorem mem_legacyRaw {rows : List Ixn} {side : Side} {n : Name} {i : Ixn} :
+theorem mem_legacyRaw {rows : List Ixn} (hne : ∀ r ∈ rows, r.src ≠ [] ∧ r.dst ≠ []) {side : Side} {n : Name} {i : Ixn} :
     i ∈ legacyRaw rows side n ↔ i ∈ rows ∧
       (match side with | .source => i.src = n ∨ i.src = star | .destination => i.dst = n ∨ i.dst = star) := by
   unfold legacyRaw
@@ -105,11 +107,11 @@ theorem mem_legacyRaw {rows : List Ixn} {side : Side} {n : Name} {i : Ixn} :
     cases side <;> simp at hf ⊢ <;> split at hm <;> simp at hm <;> grind
   · rintro ⟨hi, hf⟩
     cases side
-    · refine ⟨i.src, ?_, hi, by simp⟩
+    · refine ⟨i.src, ?_, hi, by simp [(hne i hi).1]⟩
       simp at hf
       unfold legacyNames
       split <;> simp <;> grind
-    · refine ⟨i.dst, ?_, hi, by simp⟩
+    · refine ⟨i.dst, ?_, hi, by simp [(hne i hi).2]⟩
       simp at hf
       unfold legacyNames
       split <;> simp <;> grind
@@ -295,7 +297,11 @@ theorem matchList_eq_sort {st : Store} (h : StoreWF st) (side : Side) (n : Name)
       simpa [flatten, hc] using this
     refine ⟨legacyRaw (st.rows.map (·.2)) side n, by simp, legacyRaw_keysNodup hk side n, ?_⟩
     intro i
-    rw [mem_legacyRaw]
+    have hnamed : ∀ r ∈ st.rows.map (·.2), r.src ≠ [] ∧ r.dst ≠ [] := by
+      intro r hr
+      obtain ⟨x, hx, rfl⟩ := List.mem_map.mp hr
+      exact h.rowNamed x hx
+    rw [mem_legacyRaw hnamed]
     unfold inMatch
     have hf : flatten st = st.rows.map (·.2) := by simp [flatten, hc]
     rw [hf]
